@@ -475,9 +475,7 @@ def fteik2d(slow, dz, dx, zsrc, xsrc, nsweep=2, grad=False):
             if dzu > 0.0:
                 dzi = 1.0 / (dzu * dz)
                 dz2i = dzi / (dzu * dz)
-                taue = tt[zsi + 1, j + 1] - t_ana(
-                    zsi + 1, j + 1, dz, dx, zsa, xsa, vzero
-                )
+                taue = tt[zsi, j + 1] - t_ana(zsi, j + 1, dz, dx, zsa, xsa, vzero)
                 t0c, tzc, txc = t_anad(zsi, j, dz, dx, zsa, xsa, vzero)
                 tt[zsi, j] = delta(
                     tt[zsi, j],
